@@ -135,6 +135,7 @@ def main() -> int:
     reg = build_registry(cfg["modules"])
     timeout_ms = 20000 if a.tier == "quick" else 120000
     _V = Verifier(repo, reg, Spec, timeout_ms=timeout_ms)
+    _V.only_clauses = cfg.get("only_clauses")
     keys = expand_keys(repo, reg, pid)
     if a.only:
         keys = [k for k in keys if k in a.only.split(",")]
